@@ -89,11 +89,20 @@ def source_hashes(names):
 
 
 def load_known(prop):
-    p = os.path.join(ROOT, "known_findings.json")
-    if not os.path.exists(p):
-        return {}
-    data = json.load(open(p))
-    return {f["id"]: f for f in data.get("findings", []) if f.get("property") == prop}
+    """committed known-findings: known_findings.json plus per-property files known_findings.d/<ID>.json"""
+    out = {}
+    files = [os.path.join(ROOT, "known_findings.json")]
+    d = os.path.join(ROOT, "known_findings.d")
+    if os.path.isdir(d):
+        files += [os.path.join(d, f) for f in sorted(os.listdir(d)) if f.endswith(".json")]
+    for p in files:
+        if not os.path.exists(p):
+            continue
+        data = json.load(open(p))
+        for f in data.get("findings", []):
+            if f.get("property") == prop:
+                out[f["id"]] = f
+    return out
 
 
 def run_check(harness_name, tier, seed=0, jobs=None, only=None):
